@@ -1,7 +1,6 @@
 package verifh
 
 import (
-	"verifh/gen"
 	"verifh/sym"
 	"verifh/wire"
 )
@@ -10,7 +9,7 @@ import (
 // knowing processes; re-encoding after the first hop is a fixpoint.
 func H_C01_Transfer(v *sym.V) {
 	g := newG(v, sym.REG)
-	b := g.BuildUpTo("e", v.Param("D", 2), gen.AllLeaves, gen.AllWrappers)
+	b := build(v, g, "e")
 	e := b.Err
 	v.Assert("model-text", e.Error() == b.Text)
 	enc0 := wire.Encode(e)
